@@ -75,6 +75,14 @@ pub fn special(rng: &mut Rng, range: usize) -> u32 {
 
 /// Applies one random corruption; returns its class name.
 pub fn corrupt(rng: &mut Rng, b: &mut Vec<u8>) -> &'static str {
+    // a base that is not even a header (an empty or truncated snapshot): flip one bit, nothing structured applies
+    if b.len() < 512 {
+        if !b.is_empty() {
+            let k = rng.below(b.len() as u64) as usize;
+            b[k] ^= 1;
+        }
+        return "tiny-image";
+    }
     let l = layout(b);
     match rng.below(17) {
         0 => {
